@@ -106,40 +106,40 @@ Proof.
   - apply inv_bind; [apply enum_vspecs_g|intros; apply IH].
 Qed.
 
-Lemma enum_make_g ld T : inv Q (enum_make ld T).
-Proof. unfold enum_make. cbv zeta. apply inv_bind; [apply enum_gdecls_g|intros; exact I]. Qed.
+Lemma enum_make_g fl ld T : inv Q (enum_make fl ld T).
+Proof. unfold enum_make. cbv zeta. apply inv_bind; [apply enum_gdecls_g|intros]. inv_auto. Qed.
 
-Lemma rest_param_g baddir f : forall t body, inv Q (rest_param baddir f t body).
+Lemma rest_param_g baddir fs f m : forall t st, inv Q (rest_param baddir fs f m t st).
 Proof.
-  induction t; intros body; cbn [rest_param]; try (apply HQ1; reflexivity); try exact I; try apply IHt; inv_auto.
+  induction t; intros [body qmap]; cbn [rest_param]; try (apply HQ1; reflexivity); try exact I; try apply IHt; inv_auto.
 Qed.
 
-Lemma rest_names_g baddir f t : forall names body, inv Q (rest_names baddir f t names body).
+Lemma rest_names_g baddir fs f m t : forall names st, inv Q (rest_names baddir fs f m t names st).
 Proof.
-  induction names as [|x r IH]; intros body; cbn [rest_names]; [exact I|].
+  induction names as [|x r IH]; intros st; cbn [rest_names]; [exact I|].
   apply inv_bind; [apply rest_param_g|intros; apply IH].
 Qed.
 
-Lemma rest_params_g baddir f : forall ps body, inv Q (rest_params baddir f ps body).
+Lemma rest_params_g baddir fs f m : forall ps st, inv Q (rest_params baddir fs f m ps st).
 Proof.
-  induction ps as [|p r IH]; intros body; cbn [rest_params]; [exact I|].
+  induction ps as [|p r IH]; intros st; cbn [rest_params]; [exact I|].
   apply inv_bind; [apply rest_names_g|intros; apply IH].
 Qed.
 
-Lemma rest_method_g baddir f doc ps rs : inv Q (rest_method baddir f doc ps rs).
+Lemma rest_method_g baddir fs f doc ps rs : inv Q (rest_method baddir fs f doc ps rs).
 Proof.
-  unfold rest_method. destruct doc; try exact I.
+  unfold rest_method. destruct doc; try exact I. cbv zeta.
   apply inv_bind; [inv_auto|intros].
   apply inv_bind; [apply rest_params_g|intros].
-  cbv zeta. inv_auto.
+  inv_auto.
 Qed.
 
-Lemma rest_iface_g baddir f items : inv Q (rest_iface baddir f items).
+Lemma rest_iface_g baddir fs f items : inv Q (rest_iface baddir fs f items).
 Proof.
   unfold rest_iface. apply inv_each. intros it _. destruct it; [exact I|apply rest_method_g].
 Qed.
 
-Lemma rest_walk_g baddir T f : forall l found, inv Q (rest_walk baddir T f l found).
+Lemma rest_walk_g baddir fs T f : forall l found, inv Q (rest_walk baddir fs T f l found).
 Proof.
   induction l as [|[t b] r IH]; intros found; cbn [rest_walk]; [exact I|].
   destruct (rest_test T t); [|apply IH].
@@ -147,7 +147,7 @@ Proof.
   apply inv_bind; [apply rest_iface_g|intros; apply IH].
 Qed.
 
-Lemma rest_files_g baddir T : forall fs found, inv Q (rest_files baddir T fs found).
+Lemma rest_files_g baddir all T : forall fs found, inv Q (rest_files baddir all T fs found).
 Proof.
   induction fs as [|f r IH]; intros found; cbn [rest_files]; [exact I|].
   apply inv_bind; [apply rest_walk_g|intros; apply IH].
